@@ -623,7 +623,7 @@ R('rowlenselect', 1, [lambda e, w: e.rowlenselect(w.s[0], 3),
   'transform.selects', stream=FIL0)
 R('selectusingcontext', 1,
   [lambda e, w: e.selectusingcontext(w.s[0], f_ctxsel)],
-  'transform.selects', stream=FIL1)
+  'transform.selects', stream=('filter-end', 1))   # sees the end of the table
 R('biselect', 1, [lambda e, w: e.biselect(w.s[0], f_pred_a)],
   'transform.selects', stream=FIL0, multi=True)
 R('facet', 1, [lambda e, w: tuple(v for k, v in sorted(
@@ -1206,14 +1206,14 @@ R('presorted-setops', 2,
    lambda e, w: e.diff(w.s[0], w.s[1], presorted=True)[0],
    lambda e, w: e.diff(w.s[0], w.s[1], presorted=True)[1],
    lambda e, w: e.complement(w.s[0], w.s[1], presorted=True, strict=True)],
-  'transform.setops', stream=FIL0, rect=True)
+  'transform.setops', stream=FIL0, rect=True, profile='sorted')
 R('presorted-joins', 2,
   [lambda e, w: e.join(w.s[0], w.s[1], key='a', presorted=True),
    lambda e, w: e.leftjoin(w.s[0], w.s[1], key='a', presorted=True),
    lambda e, w: e.antijoin(w.s[0], w.s[1], key='a', presorted=True),
    lambda e, w: e.lookupjoin(w.s[0], w.s[1], key='a', presorted=True),
    lambda e, w: e.mergesort(w.s[0], w.s[1], key='a', presorted=True)],
-  'transform.joins', stream=FIL0)
+  'transform.joins', stream=FIL0, profile='sorted')
 R('presorted-groups', 1,
   [lambda e, w: e.duplicates(w.s[0], 'a', presorted=True),
    lambda e, w: e.unique(w.s[0], 'a', presorted=True),
@@ -1228,9 +1228,8 @@ R('presorted-groups', 1,
    lambda e, w: e.groupselectlast(w.s[0], 'a', presorted=True),
    lambda e, w: e.mergeduplicates(w.s[0], 'a', presorted=True),
    lambda e, w: e.rowgroupmap(w.s[0], 'a', f_groupmapper, header=['k', 'n'],
-                              presorted=True),
-   lambda e, w: e.pivot(w.s[0], 'a', 'b', 'c', _count, presorted=True)],
-  'transform.reductions', stream=FIL0)
+                              presorted=True)],
+  'transform.reductions', stream=FIL0, profile='sorted')
 for _n in ('presorted-setops', 'presorted-joins', 'presorted-groups'):
     RECIPES[_n].stackable = False
     RECIPES[_n].c01 = False
